@@ -269,7 +269,8 @@ pub fn make_plan(rng: &mut Rng, profile: Profile, force_journal: Option<bool>) -
             launch_fail_salt: rng.next_u64(),
             launch_fail_permille: match profile {
                 Profile::Fail => *rng.pick(&[0u32, 100, 300]),
-                _ => *rng.pick(&[0u32, 0, 0, 50]),
+                // (failing starts also have to meet cancels, retractions and refused requests)
+                _ => *rng.pick(&[0u32, 0, 50, 150]),
             },
             n_clients: match profile {
                 Profile::Client => rng.range(2, 4) as u32,
@@ -392,13 +393,28 @@ fn submit_spec(rng: &mut Rng, plan: &RunPlan, existing: &[u32], into_open: bool)
         let n_rqs = rng.range(1, plan.classes.len().min(3) as u64) as usize;
         let rqs: Vec<RqSpec> = (0..n_rqs).map(|_| rng.pick(&plan.classes).clone()).collect();
         let base = if into_open {
-            existing.iter().max().map(|m| m + 1).unwrap_or(0) + rng.below(3) as u32
+            match existing.iter().max() {
+                Some(m) => m + 1 + rng.below(3) as u32,
+                // (the first submit into an open job may leave room below its ids)
+                None => *rng.pick(&[0u32, 1, 2, 12, 30]),
+            }
         } else {
             rng.below(3) as u32
         };
+        // a later submit whose ids lie below those of an earlier one (and may depend on them)
+        let free_below: Vec<u32> = existing
+            .iter()
+            .max()
+            .map(|m| (0..*m).filter(|i| !existing.contains(i)).collect())
+            .unwrap_or_default();
+        let low_ids = into_open && free_below.len() >= n && rng.chance(1, 3);
         let mut tasks: Vec<GraphTaskSpec> = Vec::new();
         for i in 0..n {
-            let id = base + i as u32 * if rng.chance(1, 5) { 2 } else { 1 } + i as u32;
+            let id = if low_ids {
+                free_below[i]
+            } else {
+                base + i as u32 * if rng.chance(1, 5) { 2 } else { 1 } + i as u32
+            };
             let mut deps = Vec::new();
             // dependencies on earlier tasks of this submit
             for t in tasks.iter() {
